@@ -177,6 +177,9 @@ type behStep struct {
 	} `json:"in"`
 	Var    string          `json:"var"`
 	Val    Val             `json:"val"`
+	What   string          `json:"what"` // rebind: "f" | "c"
+	Name   string          `json:"name"`
+	Kind   string          `json:"kind"`
 	H      int             `json:"h"`
 	Snap   json.RawMessage `json:"snap"`
 	Ok     bool            `json:"ok"`
@@ -244,12 +247,17 @@ func coreReplay(m map[string]string) error {
 		return err
 	}
 	randomLayouts := m["layouts"] == "random"
+	orig := len(lines)
+	if m["bystander"] == "all" {
+		lines = append(lines, lines...)
+	}
 	diffs := make([]*replayDiff, len(lines))
 	stepCounts := make([]int, len(lines))
 	errs := make([]error, len(lines))
 	base := Seed()
 	parallelFor(len(lines), func(bi int) {
 		rnd := rand.New(rand.NewSource(base + int64(bi)*1000003))
+		pass, bidx := bi/orig, bi%orig
 		var b behaviour
 		if err := json.Unmarshal(lines[bi], &b); err != nil {
 			errs[bi] = err
@@ -265,10 +273,24 @@ func coreReplay(m map[string]string) error {
 			l = randomLayout(rnd)
 		}
 		texts := renderCase(c, l)
+		// a bystander: another runner of this process (its own program, storer, host functions and
+		// commands under the same names), created before or after the runner under test and stepped
+		// now and then in between - what it does is nobody else's business
+		var by *bystander
+		byMode := rnd.Intn(4)
+		if m["bystander"] == "all" {
+			byMode = 1 + pass%2 // (replay of a stored behaviour: once with a bystander created before, once after)
+		}
+		if byMode == 1 {
+			by = newBystander(cases[rnd.Intn(len(cases))], rnd)
+		}
 		h, err := newHost(c, texts)
 		if err != nil {
-			diffs[bi] = &replayDiff{Case: c.ID, Beh: bi, Step: -1, Field: "load", Got: err.Error(), Layout: l.describe(), Texts: texts}
+			diffs[bi] = &replayDiff{Case: c.ID, Beh: bidx, Step: -1, Field: "load", Got: err.Error(), Layout: l.describe(), Texts: texts}
 			return
+		}
+		if byMode == 2 {
+			by = newBystander(cases[rnd.Intn(len(cases))], rnd)
 		}
 		waitingForChoice := false
 		type taken struct {
@@ -281,7 +303,7 @@ func coreReplay(m map[string]string) error {
 			for hnd, t := range snaps {
 				if now := h.readSnap(t.s); !reflect.DeepEqual(now, t.at) {
 					exp, _ := json.Marshal(t.at)
-					diffs[bi] = &replayDiff{Case: c.ID, Beh: bi, Step: si, Field: "snapshot-changed", Exp: exp,
+					diffs[bi] = &replayDiff{Case: c.ID, Beh: bidx, Step: si, Field: "snapshot-changed", Exp: exp,
 						Got: map[string]any{"handle": hnd, "now": now}, Layout: l.describe(), Texts: texts}
 					return false
 				}
@@ -290,20 +312,25 @@ func coreReplay(m map[string]string) error {
 		}
 		for si, st := range b.Steps {
 			stepCounts[bi]++
+			by.poke()
 			if st.Ev == "hostset" {
 				h.hostSet(st.Var, st.Val)
+				continue
+			}
+			if st.Ev == "rebind" {
+				h.rebind(st.What, st.Name, st.Kind)
 				continue
 			}
 			if st.Ev == "snap" {
 				var sn *ysgo.Snapshot
 				if !guarded(func() { sn = h.dr.Snapshot() }) || sn == nil {
-					diffs[bi] = &replayDiff{Case: c.ID, Beh: bi, Step: si, Field: "snapshot", Exp: st.Snap, Got: "panic or nil", Layout: l.describe(), Texts: texts}
+					diffs[bi] = &replayDiff{Case: c.ID, Beh: bidx, Step: si, Field: "snapshot", Exp: st.Snap, Got: "panic or nil", Layout: l.describe(), Texts: texts}
 					return
 				}
 				at := h.readSnap(sn)
 				snaps[st.H] = taken{sn, at}
 				if !jsonEqual(st.Snap, at) {
-					diffs[bi] = &replayDiff{Case: c.ID, Beh: bi, Step: si, Field: "snapshot", Exp: st.Snap, Got: at, Layout: l.describe(), Texts: texts}
+					diffs[bi] = &replayDiff{Case: c.ID, Beh: bidx, Step: si, Field: "snapshot", Exp: st.Snap, Got: at, Layout: l.describe(), Texts: texts}
 					return
 				}
 				continue
@@ -314,7 +341,7 @@ func coreReplay(m map[string]string) error {
 				ok := rerr == nil && !panicked
 				if ok != st.Ok {
 					exp, _ := json.Marshal(st.Ok)
-					diffs[bi] = &replayDiff{Case: c.ID, Beh: bi, Step: si, Field: "restore-result", Exp: exp, Got: ok, Layout: l.describe(), Texts: texts}
+					diffs[bi] = &replayDiff{Case: c.ID, Beh: bidx, Step: si, Field: "restore-result", Exp: exp, Got: ok, Layout: l.describe(), Texts: texts}
 					return
 				}
 				h.pending = nil
@@ -348,7 +375,7 @@ func coreReplay(m map[string]string) error {
 					obs = h.next(0)
 				}
 				if obs.Panic != "" {
-					diffs[bi] = &replayDiff{Case: c.ID, Beh: bi, Step: si, Field: "out", Exp: json.RawMessage(`{"k":"anything but a panic"}`),
+					diffs[bi] = &replayDiff{Case: c.ID, Beh: bidx, Step: si, Field: "out", Exp: json.RawMessage(`{"k":"anything but a panic"}`),
 						Got: obs.Out, Panic: obs.Panic, Layout: l.describe(), Texts: texts}
 				}
 				return
@@ -371,7 +398,7 @@ func coreReplay(m map[string]string) error {
 				field, exp, got = "visits", st.Visits, obs.Visits
 			}
 			if field != "" {
-				diffs[bi] = &replayDiff{Case: c.ID, Beh: bi, Step: si, Field: field, Exp: exp, Got: got, Panic: obs.Panic,
+				diffs[bi] = &replayDiff{Case: c.ID, Beh: bidx, Step: si, Field: field, Exp: exp, Got: got, Panic: obs.Panic,
 					Layout: l.describe(), Texts: texts}
 				return
 			}
